@@ -26,6 +26,9 @@
 // by an exact power of two (2^-60..2^-10, 2^1..2^40), class "p_<class>": exact oracle, no
 // clearance question.
 //
+// Class multi_hole builds polygons with 2..4 non-rectangular, disjoint holes whose envelopes
+// overlap or nest, in a random order, with the other operand inside one of the holes.
+//
 // Class gc_overlap builds collections whose areal members overlap (a hole of one member covered
 // by another member): Intersects/Distance are right there, the overlay-based Disjoint and
 // Intersection are not (known finding F20).
@@ -1408,6 +1411,158 @@ func (g *gen) clsNearLine() (*sh, *sh) {
 	return g.wrapPair(a, ka, pointSh(p), kb)
 }
 
+// strictInRing: p strictly inside the simple ring given as an open vertex list (integer crossing
+// test; points on the ring count as outside).
+func strictInRing(ring []P, p P) bool {
+	n := len(ring)
+	in := false
+	for i := 0; i < n; i++ {
+		a, b := ring[i], ring[(i+1)%n]
+		if orient(a, b, p) == 0 && min(a.x, b.x) <= p.x && p.x <= max(a.x, b.x) && min(a.y, b.y) <= p.y && p.y <= max(a.y, b.y) {
+			return false
+		}
+		if (a.y > p.y) != (b.y > p.y) {
+			// p left of the edge at height p.y  <=>  orientation of (lower, upper, p) is a left turn
+			lo, up := a, b
+			if lo.y > up.y {
+				lo, up = up, lo
+			}
+			if orient(lo, up, p) > 0 {
+				in = !in
+			}
+		}
+	}
+	return in
+}
+
+func ringBox(ring []P) (x0, y0, x1, y1 int) {
+	x0, y0, x1, y1 = ring[0].x, ring[0].y, ring[0].x, ring[0].y
+	for _, p := range ring {
+		x0, y0, x1, y1 = min(x0, p.x), min(y0, p.y), max(x1, p.x), max(y1, p.y)
+	}
+	return
+}
+
+// multi_hole: A is a square with 2..4 NON-rectangular holes (triangles, an L with a triangle in
+// its notch, diagonal slivers) that are pairwise disjoint although their envelopes overlap or
+// nest; the holes appear in a random order. B is placed strictly inside one hole - preferably at
+// a spot that also lies in the envelope of ANOTHER hole - as a point, a multipoint, a line
+// string or a triangle (convex holes), or on a vertex of the hole ring, or in the material
+// between the holes. Everything is built on a grid refined by 2 so that slivers have interior
+// lattice points. The outcome must not depend on the order of the holes.
+func (g *gen) clsMultiHole() (*sh, *sh) {
+	r := g.r
+	type hole struct {
+		ring   []P
+		convex bool
+	}
+	tri := func(x, y, n int) (hole, hole) { // two triangles, the halves of a square apart along the anti-diagonal
+		return hole{[]P{{x, y}, {x + n - 1, y}, {x, y + n - 1}}, true},
+			hole{[]P{{x + n, y + 1}, {x + n, y + n}, {x + 1, y + n}}, true}
+	}
+	sliver := func(x, y int) hole { // a diagonal band of horizontal width 1
+		return hole{[]P{{x, y}, {x + 1, y}, {x + 5, y + 4}, {x + 4, y + 4}}, true}
+	}
+	var hs []hole
+	switch r.Intn(4) {
+	case 0:
+		h1, h2 := tri(1, 1, r.Range(5, 7))
+		hs = []hole{h1, h2}
+	case 1: // envelopes nest: an L and a triangle in its notch
+		hs = []hole{
+			{[]P{{1, 1}, {8, 1}, {8, 3}, {3, 3}, {3, 8}, {1, 8}}, false},
+			{[]P{{4, 4}, {7, 4}, {4, 7}}, true},
+		}
+	case 2:
+		hs = []hole{sliver(1, 2), sliver(3, 2), sliver(5, 2)}
+	default:
+		h1, h2 := tri(1, 1, 5)
+		hs = []hole{h1, h2, sliver(8, 1), sliver(10, 1)}
+		if r.Bool() {
+			hs = append(hs[:2:2], hole{[]P{{8, 8}, {14, 8}, {14, 10}, {10, 10}, {10, 14}, {8, 14}}, false},
+				hole{[]P{{11, 11}, {14, 11}, {11, 14}}, true})
+		}
+	}
+	for i := range hs { // the refined grid
+		for k := range hs[i].ring {
+			hs[i].ring[k] = P{2 * hs[i].ring[k].x, 2 * hs[i].ring[k].y}
+		}
+	}
+	g.s, g.f = 2*g.s, 2*g.f
+	shuffle(r, hs)
+	rings := [][]P{g.finishRing(rectOpen(0, 0, 32, 32))}
+	for _, h := range hs {
+		rings = append(rings, g.finishRing(h.ring))
+	}
+	a := polySh(rings...)
+	// lattice points strictly inside the target hole; those inside another hole's envelope first
+	t := r.Intn(len(hs))
+	x0, y0, x1, y1 := ringBox(hs[t].ring)
+	var hot, cold []P
+	for x := x0; x <= x1; x++ {
+		for y := y0; y <= y1; y++ {
+			q := P{x, y}
+			if !strictInRing(hs[t].ring, q) {
+				continue
+			}
+			inOther := false
+			for i, h := range hs {
+				if i != t {
+					ex0, ey0, ex1, ey1 := ringBox(h.ring)
+					if ex0 <= x && x <= ex1 && ey0 <= y && y <= ey1 {
+						inOther = true
+					}
+				}
+			}
+			if inOther {
+				hot = append(hot, q)
+			} else {
+				cold = append(cold, q)
+			}
+		}
+	}
+	pick := func() P {
+		if len(hot) > 0 && (len(cold) == 0 || r.Chance(4, 5)) {
+			return pickP(r, hot)
+		}
+		if len(cold) > 0 {
+			return pickP(r, cold)
+		}
+		return hs[t].ring[0]
+	}
+	ka, _ := g.pickKind(4)
+	kb, db := g.pickKind(7)
+	var b *sh
+	switch mode := r.Intn(10); {
+	case mode == 0: // on a vertex of the hole ring
+		b = pointSh(pickP(r, hs[t].ring))
+		kb, _ = g.pickKind(1)
+	case mode == 1: // in the material between / around the holes
+		b = pointSh(P{r.Range(1, 31), 31})
+		kb, _ = g.pickKind(1)
+	case db == 0 || !hs[t].convex:
+		if kb != lib.KPoint && kb != lib.KMPoint && kb != lib.KColl {
+			kb = lib.KMPoint
+		}
+		b = pointSh(pick())
+		if kb != lib.KPoint && r.Bool() {
+			b = multiSh(lib.KMPoint, pointSh(pick()), pointSh(pick()))
+			kb = lib.KMPoint
+		}
+	case db == 1:
+		ps := []P{pick(), pick(), pick()}
+		fixDistinct(ps)
+		b = lineSh(ps...)
+	default:
+		b = g.valid(func() *sh { return polySh(g.finishRing([]P{pick(), pick(), pick()})) })
+		if !isValid(b) {
+			b = pointSh(pick())
+			kb, _ = g.pickKind(1)
+		}
+	}
+	return g.wrapPair(a, ka, b, kb)
+}
+
 // gc_overlap: A is a collection whose areal members OVERLAP: a square with a hole plus a second
 // polygon that covers the hole (the same shell without the hole, a larger rectangle, or a
 // rectangle that covers only part of the hole); B lies inside the hole box. The point sets
@@ -1472,6 +1627,7 @@ var classes = []class{
 	{"coll", 8, false, (*gen).clsColl},
 	{"gc_overlap", 4, false, (*gen).clsGCOverlap},
 	{"near_line", 4, false, (*gen).clsNearLine},
+	{"multi_hole", 6, false, (*gen).clsMultiHole},
 }
 
 // symmetry applies one random symmetry of the common bounding box (flips, transposition) to all
